@@ -39,6 +39,8 @@ type histProp struct {
 	// fixed are hand-written directed cases (kind "fixed:<name>"), e.g. the
 	// reproducers of recorded findings.
 	fixed map[string]PCase
+	// scale lists the scale scenarios (scale.go) run for every parser type.
+	scale []string
 }
 
 type histObserver interface {
@@ -72,6 +74,9 @@ func (h *histProp) Plan(tier string, seed int64) []core.Segment {
 	for _, t := range h.types {
 		segs = append(segs, core.Segment{Kind: "corpus:" + t, N: h.corpusN})
 		segs = append(segs, core.Segment{Kind: t, N: h.quickN * tierScale(tier, h.thorMul)})
+		if len(h.scale) > 0 {
+			segs = append(segs, core.Segment{Kind: "scale:" + t, N: int64(len(h.scale)) * 2 * tierScale(tier, 6), Chunk: 1})
+		}
 		if h.large {
 			sa := t == "GSAP" || t == "OSAP"
 			mid, lg, def := int64(500), int64(24), int64(1)
@@ -544,11 +549,13 @@ func (h *histProp) Gen(kind string, idx int64, seed int64, tier string) core.Cas
 		}
 	case "fixed":
 		pc = h.fixed[typ]
+	case "scale":
+		pc = h.genScale(r, typ, idx, o)
 	default:
 		nops := 20 + r.Intn(61)
 		pc = GenPCase(r, typ, o, h.weights, nops, 200+r.Intn(1000))
 	}
-	if h.tweak != nil && class != "fixed" && class != "far" && class != "farbig" && class != "midtext" && class != "midbstar" {
+	if h.tweak != nil && class != "fixed" && class != "scale" && class != "far" && class != "farbig" && class != "midtext" && class != "midbstar" {
 		h.tweak(r, &pc, kind)
 	}
 	if class != "fixed" {
@@ -792,7 +799,7 @@ func init() {
 			mandatory:   []string{"blocks_with_match", "shrink_discarding", "blocks_with_match_after_shrink_or_reset", "matches_with_source_retained_across_shrink", "reset_mode2", "blocks_ntl", "wrap:blocks_with_match", "wrap:refills", "wrap:shrink_discarding", "wrap:parse_EOF"},
 			expected:    []string{"overlapping_matches", "reset_mode3", "matches_with_source_before_block"}},
 		types: gen.ParserTypes, quickN: 12000, thorMul: 40, corpusN: 300, large: true,
-		weights: DefaultWeights,
+		weights: DefaultWeights, scale: scaleAll,
 		newObs: func(pc *PCase, ps *PState, c *core.Case, st *core.Stats) histObserver {
 			return &c01obs{cr: commonReach{st: st}}
 		},
@@ -878,6 +885,7 @@ func init() {
 			expected:    []string{"offset==WindowSize-1", "matchlen==MaxMatchLen"}},
 		types: gen.ParserTypes, quickN: 12000, thorMul: 40, corpusN: 300, large: true,
 		weights: HWeights{Write: 18, ReadFrom: 8, Parse: 30, ParseNTL: 10, ParseNil: 6, Shrink: 14, Reset: 1, ResetData: 2, WParse: 8, Faults: true},
+		scale:   []string{"manyseq", "longtail", "noiserun", "longmatch"},
 		tweak: func(r *rand.Rand, pc *PCase, kind string) {
 			// windows smaller than the data so that the guard is under load
 			if r.Intn(2) == 0 {
@@ -1039,6 +1047,7 @@ func init() {
 			expected:    []string{"unparsed==BlockSize"}},
 		types: gen.ParserTypes, quickN: 12000, thorMul: 40, corpusN: 300, large: true,
 		weights: HWeights{Write: 18, ReadFrom: 8, Parse: 26, ParseNTL: 22, ParseNil: 5, Shrink: 10, Reset: 1, ResetData: 2, WParse: 10, Faults: true},
+		scale:   scaleAll,
 		newObs: func(pc *PCase, ps *PState, c *core.Case, st *core.Stats) histObserver {
 			return &c03obs{cr: commonReach{st: st}, st: st}
 		},
@@ -1128,6 +1137,7 @@ func init() {
 		},
 		types: gen.ParserTypes, quickN: 12000, thorMul: 40, corpusN: 300, large: true,
 		weights: HWeights{Write: 18, ReadFrom: 8, Parse: 22, ParseNTL: 8, ParseNil: 22, Shrink: 12, Reset: 1, ResetData: 1, WParse: 10, Faults: true},
+		scale:   []string{"manyseq", "hugeshrink"},
 		newObs: func(pc *PCase, ps *PState, c *core.Case, st *core.Stats) histObserver {
 			return &c14obs{cr: commonReach{st: st}, st: st}
 		},
